@@ -144,6 +144,8 @@ package rib
 //@ loop 8 invariant dom(niR.r.Afts.Ipv4Entry) == emptyset(string) && dom(niR.r.Afts.Ipv6Entry) == emptyset(string) && dom(niR.r.Afts.LabelEntry) == emptyset(aft.Afts_LabelEntry_Label_Union) && dom(niR.r.Afts.NextHopGroup) == emptyset(uint64)
 // C16: flushing one instance notifies the post-change hook once per entry removed (as a count: hookCount + number of entries
 // still installed is constant while the instance is emptied).
+//@ ghostvar flushedTotal Int
+//@ at "niR.mu.Lock()" ghost flushedTotal = flushedTotal + totalEntries(niR)
 //@ at "niR.mu.Lock()" ghost hcB = hookCount
 //@ at "niR.mu.Lock()" ghost totB = totalEntries(niR)
 //@ loop 2 invariant[removed-entries-notified] (niR.postChangeHook != nil ==> hookCount + totalEntries(niR) == hcB + totB) && (niR.postChangeHook == nil ==> hookCount == hcB)
@@ -154,11 +156,15 @@ package rib
 //@ loop 7 invariant[removed-entries-notified] (niR.postChangeHook != nil ==> hookCount + totalEntries(niR) == hcB + totB) && (niR.postChangeHook == nil ==> hookCount == hcB)
 //@ loop 8 invariant[removed-entries-notified] (niR.postChangeHook != nil ==> hookCount + totalEntries(niR) == hcB + totB) && (niR.postChangeHook == nil ==> hookCount == hcB)
 //@ loop 1 invariant[removed-entries-notified] len(networkInstances) == 1 && old(r.niRIB[networkInstances[0]].postChangeHook) != nil ==> hookCount == old(hookCount) + ite(loopi == 0, 0, old(totalEntries(r.niRIB[networkInstances[0]])))
+// for any number of instances: the notifications of the call equal the sum, over the instances flushed, of the entries each held when
+// its flush began (flushedTotal is that sum, accumulated where the instance is locked)
+//@ loop 1 invariant[removed-entries-notified] r.postChangeHook != nil ==> hookCount == old(hookCount) + flushedTotal - old(flushedTotal)
+//@ ensures[all-removed-entries-notified] old(r.postChangeHook) != nil ==> hookCount == old(hookCount) + flushedTotal - old(flushedTotal)
 //@ ensures[removed-entries-notified] len(networkInstances) == 1 && old(r.niRIB[networkInstances[0]].postChangeHook) != nil ==> hookCount == old(hookCount) + old(totalEntries(r.niRIB[networkInstances[0]]))
 // C03/C08: every flushed entry releases its reference where it points: in the instance it names, or its own.
 //@ assert at "referencedRIB.decNHGRefCount(entry.GetNextHopGroup())" [release-where-referenced] referencedRIB == refTarget(r, niR, rangeval.GetNextHopGroupNetworkInstance()) && refOK(r, rangeval.GetNextHopGroupNetworkInstance())
-//@ assigns ribState, hookCount
-//@ props C08 C03 C16:#removed-entries-notified C12:safety
+//@ assigns ribState, hookCount, flushedTotal
+//@ props C08 C03 C16:#removed-entries-notified C16:#all-removed-entries-notified C12:safety
 
 //@ guarded_by niRefCounter.mu: NextHop, NextHopGroup
 
@@ -1296,7 +1302,7 @@ package rib
 // (C02: an instance created later, e.g. a VRF, is gated exactly like the default one). Established by New and
 // AddNetworkInstance; no other unit assigns these fields (their frames prove it).
 //@ pred gateInv(r *RIB) = forall k in dom(r.niRIB) :: (r.niRIB[k].checkFn != nil <==> r.ribCheck) && (r.niRIB[k].disableForwardRef <==> r.disableForwardReferences)
-//@   && gateWired(r.niRIB[k]) && (r.niRIB[k].checkFn != nil ==> gateRIB(r.niRIB[k]) == r)
+//@   && gateWired(r.niRIB[k]) && (r.niRIB[k].checkFn != nil ==> gateRIB(r.niRIB[k]) == r) && r.niRIB[k].postChangeHook == r.postChangeHook
 // holderFresh: the holder and everything it owns were allocated during the call and its tables are still unallocated.
 //@ pred holderFresh(h *RIBHolder) = fresh(h) && fresh(h.r) && fresh(h.r.Afts) && fresh(h.refCounts) && fresh(h.refCounts.NextHop) && fresh(h.refCounts.NextHopGroup)
 //@   && h.r.Afts.Ipv4Entry == nil && h.r.Afts.Ipv6Entry == nil && h.r.Afts.LabelEntry == nil && h.r.Afts.NextHopGroup == nil && h.r.Afts.NextHop == nil
